@@ -236,11 +236,42 @@ func lenGE1Edges(fn *ssa.Function, s ssa.Value) []Edge {
 }
 
 // cmpEdges: for a comparison `x op y` matched by pred, edges where it holds / fails.
+// mirrored: the same comparison written the other way round (`a < b` as `b > a`): a copy of the instruction
+// with the operands exchanged and the operator turned. It has the truth value of b wherever b has one, so the
+// branch edges of b are its edges; nil for anything that is not a comparison.
+func mirrored(b *ssa.BinOp) *ssa.BinOp {
+	var op token.Token
+	switch b.Op {
+	case token.LSS:
+		op = token.GTR
+	case token.GTR:
+		op = token.LSS
+	case token.LEQ:
+		op = token.GEQ
+	case token.GEQ:
+		op = token.LEQ
+	case token.EQL, token.NEQ:
+		op = b.Op
+	default:
+		return nil
+	}
+	m := *b
+	m.Op, m.X, m.Y = op, b.Y, b.X
+	return &m
+}
+
+// cmpEdges: the branch edges of every comparison of fn that pred accepts, as it is written or the other way
+// round (pred sees `a < b` for a `b > a` in the source).
 func cmpEdges(fn *ssa.Function, pred func(b *ssa.BinOp) bool) (holds, fails []Edge) {
 	allInstrs(fn, func(in ssa.Instruction) {
 		b, ok := in.(*ssa.BinOp)
-		if !ok || !pred(b) {
+		if !ok {
 			return
+		}
+		if !pred(b) {
+			if m := mirrored(b); m == nil || !pred(m) {
+				return
+			}
 		}
 		t, f := boolEdges(b)
 		holds = append(holds, t...)
